@@ -34,21 +34,48 @@ def pmap(fn, jobs, deadline=None, workers=None, chunksize=1):
     if _POOL is None:
         _POOL = mp.get_context("fork").Pool(workers)
     pool = _POOL
-    it = pool.imap_unordered(_wrap_idx, [(fn, i, j) for i, j in enumerate(jobs)], chunksize)
-    complete = False
+    # Work is handed out lazily and the hand-out stops at the deadline: what is already in flight completes and the iteration ends
+    # by itself.  (Pool.terminate() in the middle of a run can deadlock on the queue lock held by an idle worker; it is never
+    # used on the normal path.)
+    import threading
+    window = threading.Semaphore(workers * 3 * max(1, chunksize))      # at most this many jobs handed out and not yet returned
+
+    def feed():
+        for i, j in enumerate(jobs):
+            window.acquire()
+            if stop[0] or (deadline and time.time() > deadline):
+                return
+            yield (fn, i, j)
+    stop = [False]
+    it = pool.imap_unordered(_wrap_idx, feed(), chunksize)
+    failed = None
     try:
         for i, st, r in it:
-            if st == "err":
-                raise RuntimeError("worker failed:\n" + r)
-            yield jobs[i], r
-            if deadline and time.time() > deadline:
-                return
-        complete = True
+            window.release()
+            if st == "err" and failed is None:
+                failed = r
+                stop[0] = True        # stop feeding, drain what is in flight
+            elif failed is None:
+                yield jobs[i], r
     finally:
-        if not complete:
-            # queued work cannot be cancelled: drop the pool, the next call forks a new one
-            pool.terminate()
-            _POOL = None
+        # also when the consumer walks away early: the pool's feeder thread must never stay blocked on the window
+        stop[0] = True
+        for _ in range(workers * 3 * max(1, chunksize) + 8):
+            window.release()
+    if failed is not None:
+        raise RuntimeError("worker failed:\n" + failed)
+
+
+def _kill_pool():
+    """abandon the pool without the (deadlock prone) orderly shutdown; only used when the run is lost anyway"""
+    global _POOL
+    pool, _POOL = _POOL, None
+    if pool is not None:
+        for p in list(getattr(pool, "_pool", [])):
+            try:
+                p.kill()
+            except Exception:
+                pass
 
 
 def _wrap_idx(args):
